@@ -99,6 +99,7 @@ dj::track_snapshot example_snapshot(int kind, int n);
 // Handles listed in tracks/crates are observed (stale ones through is_valid()/id() only).
 std::string observe(World& w, bool include_track_fields = true, bool include_handles = true);
 std::string observe_track(const dj::track& t, bool even_if_invalid = false);
+std::string waveform_text(const std::vector<dj::waveform_entry>& w);  // the text of the "waveform" fact
 std::string snapshot_str(const dj::track_snapshot& s);  // one "snapshot.<field> = <text>" line per field
 // parse "name = value" lines into a map (name without the "track#<id>." prefix when strip_prefix is given)
 std::map<std::string, std::string> facts_of(const std::string& observation, const std::string& strip_prefix = "");
